@@ -31,7 +31,7 @@ def hostPort (j : Json) : Except String HostPort := do
 
 def offering (j : Json) : Except String Offering := do
   pure { zone := ← strF j "zone", ct := ← strF j "capacityType", price := ← natF j "price", available := ← boolF j "available",
-         resID := ← strF j "reservationID", resN := ← natF j "reservationCapacity" }
+         resID := ← strF j "reservationID", resN := ← natF j "reservationCapacity", cpuOverride := ← intO j "cpuOverride" }
 
 def it (j : Json) : Except String IT := do
   pure { name := ← strF j "name", cpu := ← intF j "cpu", mem := ← intF j "mem", pods := ← intF j "pods",
